@@ -19,7 +19,7 @@ EXC_CLASSES = {
     "BaseExceptionGroup": 10, "TypeError": 11, "KeyError": 12, "ValueError": 13,
 }
 CMP = {ast.Eq: 0, ast.NotEq: 1, ast.Lt: 2, ast.LtE: 3, ast.Gt: 4, ast.GtE: 5}
-B = dict(len=0, append=1, appendleft=2, extend=3, popleft=4, head=5, contains=6, getitem=7, setitem=8, isinstance=9,
+B = dict(get=16, len=0, append=1, appendleft=2, extend=3, popleft=4, head=5, contains=6, getitem=7, setitem=8, isinstance=9,
          newexc=10, index1=11, values=12, concat=13, dictoftypes=14, type=15)
 
 
@@ -143,6 +143,8 @@ class Tr:
                 return [], f"(Expr.lit (Val.cls {EXC_CLASSES[n.id]}))"
             if n.id in self.locals:
                 return [], f"(Expr.loc {self.locals[n.id]})"
+            if n.id == "self":
+                return [], "(Expr.lit (Val.obj 4242))"      # the receiver's own identity
             raise Unrecognised(f"name {n.id}")
         if isinstance(n, ast.Attribute):
             if self.src(n) in self.t.ext_attrs:
@@ -227,7 +229,12 @@ class Tr:
         if isinstance(n, ast.Call):
             return self.call(n)
         if isinstance(n, ast.IfExp):
-            raise Unrecognised("conditional expression")
+            pc, c = self.expr(n.test)
+            pa, a = self.expr(n.body)
+            pb_, b = self.expr(n.orelse)
+            if pa or pb_:
+                raise Unrecognised("effectful arm of a conditional expression")
+            return pc, f"(Expr.cond {c} {a} {b})"
         raise Unrecognised(type(n).__name__)
 
     def args_of(self, n: ast.Call, spec: list[str]) -> tuple[list[str], list[str]]:
@@ -235,6 +242,15 @@ class Tr:
         for a in spec:
             if a.startswith("$"):
                 node = ast.parse(a[1:], mode="eval").body
+            elif "|" in a:
+                kwname, pos = a[1:].split("|")
+                kw = [k for k in n.keywords if k.arg == kwname]
+                if kw:
+                    node = kw[0].value
+                elif int(pos) < len(n.args):
+                    node = n.args[int(pos)]
+                else:
+                    raise Unrecognised(f"call {self.src(n)}: argument {kwname} missing")
             elif a[1:].isdigit():
                 k = int(a[1:])
                 if k >= len(n.args):
@@ -244,8 +260,6 @@ class Tr:
                 kw = [k for k in n.keywords if k.arg == a[1:]]
                 if kw:
                     node = kw[0].value
-                elif "|" in a:      # "@name|k": keyword `name` or positional k
-                    raise Unrecognised("alt spec")
                 else:
                     raise Unrecognised(f"call {self.src(n)}: keyword {a[1:]} missing")
             p, e = self.expr(node)
@@ -286,6 +300,10 @@ class Tr:
                         raise Unrecognised("effectful argument")
                     es.append(e)
                 return pres, f"(Expr.call {self.t.callables[f.id]} {self.lst(es)})"
+            if f.id in self.t.ext_functions and isinstance(self.t.ext_functions[f.id][1], list):
+                num, spec = self.t.ext_functions[f.id]
+                pres, es = self.args_of(n, spec)
+                return pres, f"(Expr.call {num} {self.lst(es)})"
             if f.id in self.t.ext_functions:
                 num, arity = self.t.ext_functions[f.id]
                 if len(n.args) != arity or n.keywords:
@@ -301,7 +319,7 @@ class Tr:
             raise Unrecognised(f"call of {f.id}")
         if isinstance(f, ast.Attribute):
             recv, meth = self.src(f.value), f.attr
-            if recv in self.t.self_names and (recv, meth) not in self.t.externals:
+            if recv in self.t.self_names and (recv, meth) not in self.t.externals and meth not in self.t.method_externals:
                 return self.inline(n, meth)
             if recv in self.alias and (self.alias[recv], meth) in self.t.externals:
                 num, spec = self.t.externals[(self.alias[recv], meth)]
@@ -328,8 +346,14 @@ class Tr:
                         f"(Expr.call {B['head']} {self.lst([f'(Expr.loc {tmp})'])})"
                 if meth == "values" and not n.args:
                     return pr, f"(Expr.call {B['values']} {self.lst([er])})"
-                if meth == "get" and len(n.args) in (1, 2):
-                    raise Unrecognised("dict.get")
+                if meth == "get" and len(n.args) in (1, 2) and not n.keywords:
+                    pres, es = list(pr), [er]
+                    for a in n.args:
+                        p, e = self.expr(a)
+                        if p:
+                            raise Unrecognised("effectful argument")
+                        es.append(e)
+                    return pres, f"(Expr.call {B['get']} {self.lst(es)})"
             raise Unrecognised(f"call {recv}.{meth}")
         raise Unrecognised(f"call {self.src(n)}")
 
